@@ -114,9 +114,23 @@ def _perm_worker(args):
     units = []
     pairs = []
     n = sz["arena_grammars"] // nshards
-    for i in range(n):
+    for i in range(n + 1):
         cfg = None if i % 2 else dict(p_user_pred=0.0, p_assert=0.0)
-        g, meta = GValid(rng, cfg).grammar()
+        if i == n:
+            # template: parts that refer to each other and are not reachable from the start rule (their analysis must not
+            # depend on which of them is declared first)
+            from ..buckets import _g
+            from ..model import name as nm_, concat as cc_, star as st_, opt as op_, paren as pa_
+            inner = st_(pa_(cc_(nm_("X"), nm_("Y")))) if rng.random() < 0.6 else op_(cc_(nm_("X"), nm_("Y")))
+            b_body = cc_(inner, nm_("Z")) if rng.random() < 0.4 else inner
+            a_body = cc_(st_(pa_(cc_(nm_("B"), nm_("b"), nm_("C")))), nm_("D"))
+            rules = [("s", cc_(nm_("A"), op_(nm_("D"))), False), ("a", a_body, False), ("b", b_body, False)]
+            if rng.random() < 0.5:
+                rules.append(("c", cc_(nm_("Z"), nm_("b"), nm_("A")), False))
+            g = _g(["A", "B", "C", "D", "X", "Y", "Z", "Ws"], rules, skip=["Ws"], parts=["a", "b"] + (["c"] if len(rules) == 4 else []))
+            meta = {"features": ["parts", "unreferenced_part", "star"], "skipped": ["Ws"]}
+        else:
+            g, meta = GValid(rng, cfg).grammar()
         if g is None:
             continue
         meta.pop("refsets", None)
